@@ -562,6 +562,45 @@ func runAlertRules(c *Ctx) {
 			c.Check(guarded, "ALERT", fname, "route fallback only for routes not informed explicitly", p.ipos(call), "append dominated by !informedRoutes[route], tested after all selectors were seen", "a route-only trip descriptor adds a route entity although the alert may already inform that route explicitly (the test must be made after the selector loop, whatever the selector order)")
 		}
 	}
+	// the fallback may live in a helper that is called after the selector loop and is handed the set of explicitly
+	// informed routes: its appends are guarded by !set[route] of that parameter
+	for _, b := range fn.Blocks {
+		if sel.Blocks[b] || !sel.Header.Dominates(b) || informedRoutes == nil {
+			continue
+		}
+		for _, in := range b.Instrs {
+			cs, ok := in.(*ssa.Call)
+			if !ok {
+				continue
+			}
+			g := staticCallee(cs)
+			if g == nil || !c.P.isModuleFn(g) || len(g.Blocks) == 0 || fnPkgPath(g) != fnPkgPath(fn) {
+				continue
+			}
+			var setParam ssa.Value
+			for j, a := range cs.Call.Args {
+				if a == informedRoutes && j < len(g.Params) {
+					setParam = g.Params[j]
+				}
+			}
+			for _, gb := range g.Blocks {
+				for _, gin := range gb.Instrs {
+					call, ok := gin.(*ssa.Call)
+					if !ok || !isEntAppend(call) {
+						continue
+					}
+					nFallback++
+					guarded := false
+					for _, ce := range dominatingConds(gb) {
+						if lk, isLk := ce.Cond.(*ssa.Lookup); isLk && setParam != nil && lk.X == setParam && !ce.Val {
+							guarded = true
+						}
+					}
+					c.Check(guarded, "ALERT", fname, "route fallback only for routes not informed explicitly", p.ipos(call), "append dominated by !informedRoutes[route], tested after all selectors were seen", "a route-only trip descriptor adds a route entity although the alert may already inform that route explicitly (the test must be made after the selector loop, whatever the selector order)")
+				}
+			}
+		}
+	}
 	if nFallback == 0 {
 		c.Violated("ALERT", fname, "route fallback", p.pos(fn.Pos()), "no fallback entities are produced for route-only trip descriptors")
 	}
